@@ -115,13 +115,14 @@ def marking_model(ctx, K, maxeta, aniso, rng, knife_only=False, pad_aniso=False)
             mesh = ml.replay(lay, path)
             theta = _theta_float(*th)
             scale = [1.0, 2.0 ** -40, 2.0 ** 30, 2.0 ** -70][ci % 4]
+            form = ml.FORMS[(ci // 4) % len(ml.FORMS)]
             if aniso:
                 pairs = [[eta[k], eta[N + k]] for k in range(N)]
                 tot = sum(eta)
-                op = ("dorfler_aniso", pairs, theta, {"th2": th, "judge": not _knife(tot, th[0], th[1], theta), "scale": scale})
+                op = ("dorfler_aniso", pairs, theta, {"th2": th, "judge": not _knife(tot, th[0], th[1], theta), "scale": scale, "form": form})
             else:
                 tot = sum(eta)
-                op = ("dorfler_iso", list(eta), theta, {"th2": th, "judge": not _knife(tot, th[0], th[1], theta), "scale": scale})
+                op = ("dorfler_iso", list(eta), theta, {"th2": th, "judge": not _knife(tot, th[0], th[1], theta), "scale": scale, "form": form})
             if not op[3]["judge"]:
                 knife += 1
             events.append(rm.reset_event(mesh, lay, False))
